@@ -145,6 +145,26 @@ def main():
                     print("VIOLATION property=C20 replay=%s no-failing-input-found" % path)
                     print("  mutable function-local static %s::%s in %s (static inventory)" % (m.group(2), m.group(3), m.group(1)))
                     violations.append((None, {"name": "static-inventory", "desc": line, "file": m.group(1), "line": 0, "function": m.group(2), "status": "FAILURE", "tags": ["C20"]}, {}))
+        # the same fact for FILE-scope objects (tools/filescope.py): a cache or scratch variable placed at file scope and written by a function that
+        # only runs in plain bounded harnesses (lookups, most of cJSON_Utils.c) has no frame obligation either.  Inventory: the error record and the hooks.
+        import filescope
+        allowed_fs = {("cJSON.c", "global_error"), ("cJSON.c", "global_hooks")}
+        for fn_ in ("cJSON.c", "cJSON_Utils.c"):
+            try:
+                objs = filescope.file_scope_objects(os.path.join(driver.REPO, fn_))
+            except OSError:
+                objs = []
+            for (f_, name_, kind_, decl_) in objs:
+                static_facts.append("file-scope %s: %s [%s] %s" % (f_, name_, kind_, decl_))
+                if kind_ == "mutable" and (f_, name_) not in allowed_fs:
+                    os.makedirs(os.path.join(VERIF, "replays"), exist_ok=True)
+                    path = os.path.join(VERIF, "replays", "C20_filescope_%s.txt" % name_)
+                    open(path, "w").write("property: C20\nfailed obligation: static-inventory (supporting static fact, tools/filescope.py)\n"
+                        "finding: %s defines the mutable file-scope object `%s` (%s): an object of static storage duration shared by every thread, "
+                        "outside the documented shared state (global error record, hooks).\n" % (f_, name_, decl_))
+                    print("VIOLATION property=C20 replay=%s no-failing-input-found" % path)
+                    print("  mutable file-scope object %s in %s (static inventory)" % (name_, f_))
+                    violations.append((None, {"name": "static-inventory", "desc": "file-scope %s" % name_, "file": f_, "line": 0, "function": name_, "status": "FAILURE", "tags": ["C20"]}, {}))
     n_ob = n_ok = 0
     n_ob_b = n_ok_b = 0
     per_unit = []
